@@ -117,6 +117,19 @@ pub fn open_flow(
                 }
             }
 
+            // the same coin pays the fee and funds the flow: it has to carry exactly the declared
+            // flow amount, i.e. the (already fee-deducted) flow_asset amount plus the fee
+            if let AssetInfo::NativeToken {
+                denom: flow_asset_denom,
+            } = &flow_asset.info
+            {
+                if *flow_asset_denom == flow_fee_denom
+                    && paid_amount != flow_asset.amount.checked_add(flow_fee.amount)?
+                {
+                    return Err(ContractError::FlowAssetNotSent);
+                }
+            }
+
             // send fee to fee collector
             messages.push(
                 BankMsg::Send {
